@@ -290,15 +290,17 @@ func HarnessC04Allow() {
 }
 
 // HarnessC01Reuse: one Packer unpacks two archives into two destinations in turn. The first call
-// may fail part-way (K symbolic entries); whatever it did, the second call touches nothing outside
+// may fail part-way (a directory entry, then K symbolic entries); whatever it did, the second call touches nothing outside
 // its own destination - in particular not the first one.
 func HarnessC01Reuse() {
 	unpackWorld()
 	envMkdir("/w/q", 0755, 100)
 	envMkdir("/w/q/r", 0755, 100)
 	p := &Packer{}
-	k := verif.Param("K", 2)
-	var first []envTarEntry
+	k := verif.Param("K", 1)
+	// a directory entry (so that there is something whose mode and times are restored at the end),
+	// then K symbolic entries, any of which may make the call fail
+	first := []envTarEntry{{Name: "conf/", Typeflag: tar.TypeDir, Mode: 0700, Mtime: 1001}}
 	for i := 0; i < k; i++ {
 		first = append(first, unpackSegEntry(verif.Param("sName", 2), verif.Param("sLink", 1)))
 	}
